@@ -341,6 +341,26 @@ def check_c17(tier, seed, t0):
     return emit("C17", tier, seed, t0, [offr, unk], extra_findings=extra, extra_cov=cov)
 
 
+def apalache_abs():
+    """unbounded (inductive) check of the token-level cache abstraction spec/AbsCache.tla with Apalache"""
+    wd = os.path.join(vf.OUT, "apalache")
+    shutil.rmtree(wd, ignore_errors=True)
+    os.makedirs(wd)
+    res = {}
+    for name, args in (("base", ["--init=AInit", "--inv=CacheIsLatestAbs", "--length=0"]),
+                       ("step", ["--init=CacheIsLatestAbs", "--inv=CacheIsLatestAbs", "--length=1"]),
+                       ("never-evicted", ["--init=CacheIsLatestAbs", "--inv=NeverEvictedAbs", "--length=1"]),
+                       ("isolation", ["--init=CacheIsLatestAbs", "--inv=IsolationAbs", "--length=1"])):
+        r = subprocess.run(["timeout", "1200", "apalache-mc", "check", "--cinit=ConstInit", "--next=ANext", "--out-dir=" + wd] + args + ["AbsCache.tla"],
+                           cwd=vf.SPEC, stdout=subprocess.PIPE, stderr=subprocess.STDOUT, text=True)
+        res[name] = "EXITCODE: OK" in r.stdout
+        if not res[name]:
+            raise vf.ToolError("Apalache: obligation %s of spec/AbsCache.tla failed (a defect of the specification):\n%s" % (name, r.stdout[-1500:]))
+    shutil.rmtree(wd, ignore_errors=True)
+    log("apalache AbsCache: %s" % res)
+    return res
+
+
 def check(prop, tier, seed, t0):
     if prop == "C17":
         return check_c17(tier, seed, t0)
@@ -352,7 +372,10 @@ def check(prop, tier, seed, t0):
     if prop == "C01" and tier == "thorough":
         # stack depth and frame sizes differ between profiles: exercise the optimised build too
         runs += [driver_run(d, tier, seed, release=True) for d in ("scale", "hostile", "mutate")]
+    apa = apalache_abs() if (prop == "C06" and tier == "thorough") else None
     extra = {"models": {m["module"] + ":" + m["cfg"]: {"states": m["states"], "transitions": m["transitions"], "vectors": m["nvec"], "wall_s": m["wall_s"]} for m in models}}
+    if apa:
+        extra["apalache_inductive_obligations_AbsCache"] = apa
     return emit(prop, tier, seed, t0, runs, extra_cov=extra, models=models)
 
 
